@@ -88,6 +88,18 @@ fn park(shared: &Arc<Shared>, idx: usize, site: Site) -> bool {
     g.grant[idx]
 }
 
+/// For worker code that waits for something other than a zone tree lock
+/// (the async writer mutex): give the turn back; `failed` > 0 tells the
+/// scheduler that this worker made no progress.
+pub fn yield_blocked(tag: usize, failed: u32) {
+    let me = WORKER.with(|w| w.borrow().clone());
+    if let Some((shared, idx)) = me {
+        park(&shared, idx, Site { lock: tag, op: None, failed });
+    } else {
+        std::thread::yield_now();
+    }
+}
+
 pub fn install_hook() {
     verif_hooks::set_hook(Some(lock_hook));
 }
@@ -200,11 +212,14 @@ pub fn run_threads(names: Vec<String>, bodies: Vec<Box<dyn FnOnce() + Send + 'st
             while g.turn.is_some() {
                 g = shared.cv.wait(g).unwrap();
             }
-            // Did it get anywhere?
-            let progressed = g.status[pick] == Status::Done || g.site[pick].failed == 0;
+            // Did it get anywhere? A first failure at a new wait means the
+            // worker ran up to that wait (and may have released something);
+            // only a repeated failure of the same wait is a standstill.
+            let progressed = g.status[pick] == Status::Done || g.site[pick].failed <= 1;
             if progressed {
                 failed_since_progress.clear();
-            } else {
+            }
+            if g.status[pick] != Status::Done && g.site[pick].failed > 0 {
                 failed_since_progress.insert(pick);
             }
         }
